@@ -139,6 +139,18 @@ Theorem old_routes_ignored_manifest_witness :
   route_decision_before_fix ver3 ver3 ver_geb RAvbc w_cfg_deny (Some [("sentry", w_policy_denied)]) None ["sentry"] w_file = [ELoaded; EInit; ERegistered].
 Proof. exact old_routes_ignored_manifest. Qed.
 
+(* the policy of a module imported through a dotted path / subdirectory is the entry of its LAST segment,
+   for every component at once: the decision function takes a single policy (the source looks it up twice,
+   under the same key expression -- model_matches_source) *)
+Theorem dotted_import_uses_the_same_policy :
+  forall (vreq ver : Type) (sat : vreq -> ver -> bool) (r : route) (c : config) (m : manifest vreq)
+         (dirs : list string) (name : string) (f : nfile ver),
+    route_decision vreq ver sat r c (Some m) None (dirs ++ [name]) f
+    = route_decision vreq ver sat r c (Some m) None [name] f.
+Proof.
+  intros. unfold route_decision, module_policy. rewrite last_last. reflexivity.
+Qed.
+
 (* the two FNV-1a implementations (file in chunks / byte slice) agree on every byte sequence *)
 Theorem fnv_file_eq_fnv_bytes : forall chunks : list (list N), fnv_file chunks = fnv_bytes (List.concat chunks).
 Proof. exact fnv_file_eq_fnv_bytes_lemma. Qed.
